@@ -369,8 +369,19 @@ def var_const_decider(fold, var, value, aliases=()):
 
     def decide(node):
         e = node.ast
+        if isinstance(e, _ast.Name) and e.id in names:
+            return bool(value)
         if isinstance(e, _ast.Compare) and len(e.ops) == 1:
             l, r, op = e.left, e.comparators[0], e.ops[0]
+            if isinstance(l, _ast.Name) and l.id in names and isinstance(op, (_ast.Lt, _ast.LtE, _ast.Gt, _ast.GtE)):
+                other = fold(r)
+                if other is None:
+                    return None
+                try:
+                    return {_ast.Lt: value < other, _ast.LtE: value <= other, _ast.Gt: value > other,
+                            _ast.GtE: value >= other}[type(op)]
+                except TypeError:
+                    return None
             if isinstance(l, _ast.Name) and l.id in names:
                 other = fold(r)
                 flip = False
